@@ -99,3 +99,7 @@ impl FrameAckQueue {
 }
 
 
+#[cfg(feature = "verif")]
+impl FrameAckQueue {
+    pub fn verif_len(&self) -> usize { self.entries.len() }
+}
